@@ -1,7 +1,7 @@
 #!/bin/bash
 # run_seeds.sh [seed...]: apply each seeded change to a scratch worktree and run the check of its property; one line per seed in seeded/RESULTS.txt
 cd /verif
-OUT=/verif/seeded/RESULTS.txt
+OUT=${SEED_OUT:-/verif/seeded/RESULTS.txt}
 [ $# -eq 0 ] && : > $OUT
 for d in ${@:-$(ls seeded | grep -v RESULTS)}; do
   [ -f seeded/$d/patch.diff ] || continue
